@@ -120,6 +120,7 @@ var classes = map[string]string{
 	"@escd":  " :*\\(\"-",
 	"@qc":    lowerCls + " *:",
 	"@rc":    lowerCls + "*.",
+	"@bad":   "!#$%&,;@|`.", // bytes that cannot start a token
 }
 
 var narrowShapes = []shape{
@@ -133,6 +134,7 @@ var narrowShapes = []shape{
 	{"dq0", []string{"\"\""}}, {"dq1", []string{"\"", "@qc", "\""}},
 	{"sq1", []string{"'", "@qc", "'"}},
 	{"re0", []string{"//"}}, {"re1", []string{"/", "@rc", "/"}},
+	{"bad", []string{"@bad"}},
 }
 
 // shapeBytes appends the bytes of one slot of the given shape.
@@ -152,12 +154,13 @@ func shapeBytes(buf []byte, sh shape) []byte {
 // shapeSlots builds K slots separated by single spaces.
 func shapeSlots(k int) string {
 	var buf []byte
+	shapes := ctxShapes() // SHAPES=1: one representative per token kind
 	for i := 0; i < k; i++ {
-		c := rtChoose("shape", len(narrowShapes))
+		c := rtChoose("shape", len(shapes))
 		if i > 0 {
 			buf = append(buf, ' ')
 		}
-		buf = shapeBytes(buf, narrowShapes[c])
+		buf = shapeBytes(buf, shapes[c])
 	}
 	return string(buf)
 }
